@@ -5,7 +5,9 @@
 //
 // Replay of one iteration: `vh api-fuzz iter=<n>` (same VERIF_SEED / VERIF_TIER);
 // `n=<count>` overrides the number of iterations, `src=<dir>` the source root
-// whose testdata/ directory is used as an additional corpus (default /repo).
+// whose testdata/ directory is used as an additional corpus (default /repo);
+// `selftest=hang` / `selftest=panic` plant a hanging / panicking call into
+// iteration 3 to check the deadline and recover plumbing of the command itself.
 //
 // A Go stack overflow cannot be recovered: should the process die with
 // "fatal error: stack overflow", the iteration number is the first argument of
@@ -192,7 +194,8 @@ type config struct {
 	maxLen   int // upper bound for every single input
 	corpus   []corpusSet
 	trunc    []truncCase
-	truncAll bool // iterations 0..len(trunc)-1 enumerate the truncation cases
+	truncAll bool   // iterations 0..len(trunc)-1 enumerate the truncation cases
+	selftest string // "hang" / "panic": iteration 3 makes a call that never returns / panics (checks the harness itself)
 }
 
 func splitmix(x uint64) uint64 {
@@ -436,7 +439,21 @@ func (c *ictx) diff(method, impl, model, class string) {
 		k = class
 	}
 	c.stat("diff:" + method + ": " + short(k, 120))
+	// one root cause shows in every later method of the iteration: report the first occurrence only
+	for _, d := range c.res.diffs {
+		if firstLine(d.Impl) == firstLine(impl) && d.Class == class {
+			c.stat("diffs_repeated_within_iteration")
+			return
+		}
+	}
 	c.res.diffs = append(c.res.diffs, vh.Diff{Component: component, Input: c.dump + " method=" + method, Impl: impl, Model: model, Class: class})
+}
+
+func firstLine(s string) string {
+	if i := strings.IndexByte(s, '\n'); i >= 0 {
+		return s[:i]
+	}
+	return s
 }
 
 func short(s string, n int) string {
@@ -699,6 +716,13 @@ func runIter(it int64, cfg *config, w *worker) *result {
 	c.stat("rootlen:" + bucket(len(in.root)))
 	c.stat(fmt.Sprintf("ntypes:%d", len(in.types)))
 
+	if it == 3 && cfg.selftest == "hang" {
+		c.call("selftest.hang", func() error { select {} })
+	}
+	if it == 3 && cfg.selftest == "panic" {
+		c.call("selftest.panic", func() error { var m map[string]int; m["x"] = 1; return nil })
+	}
+
 	// ---- enum rule ----
 	var e *enum.Enum
 	if in.fromFile {
@@ -884,10 +908,13 @@ func bucket(n int) string {
 func Run(args []string) {
 	thorough := vh.Tier() == "thorough"
 	cfg := &config{seed: vh.Seed(), maxLen: vh.Pick(600, 4096), truncAll: thorough}
-	n := int64(vh.Pick(40000, 2000000))
+	n := int64(vh.Pick(40000, 1200000))
 	src := "/repo"
 	replay := int64(-1)
 	show, shown := "", 0
+	// diffs are handed to the report at the end, unclassified ones first (the report keeps the first 25 only)
+	var unclassified, classified []vh.Diff
+	classCount := map[string]int{}
 	for _, a := range args {
 		switch {
 		case strings.HasPrefix(a, "iter="):
@@ -896,6 +923,8 @@ func Run(args []string) {
 			n, _ = strconv.ParseInt(a[2:], 10, 64)
 		case strings.HasPrefix(a, "src="):
 			src = a[4:]
+		case strings.HasPrefix(a, "selftest="):
+			cfg.selftest = a[9:]
 		case strings.HasPrefix(a, "show="): // log up to 5 diffs whose Impl contains the text
 			show = a[5:]
 		}
@@ -958,7 +987,14 @@ func Run(args []string) {
 			rep.Stat(s)
 		}
 		for _, d := range res.diffs {
-			rep.AddDiff(d)
+			if d.Class == "" {
+				unclassified = append(unclassified, d)
+			} else {
+				classCount[d.Class]++
+				if classCount[d.Class] <= 6 {
+					classified = append(classified, d)
+				}
+			}
 			if show != "" && shown < 5 && strings.Contains(d.Impl, show) {
 				shown++
 				fmt.Printf("SHOW %s\n  impl=%s\n", d.Input, d.Impl)
@@ -1014,7 +1050,7 @@ loop:
 					time.Sleep(200 * time.Millisecond)
 					mu.Lock()
 					closed = true
-					rep.AddDiff(vh.Diff{Component: component, Input: input + " method=" + method, Impl: "TIMEOUT", Model: fmt.Sprintf("the call returns within %v", callDeadline)})
+					unclassified = append([]vh.Diff{{Component: component, Input: input + " method=" + method, Impl: "TIMEOUT", Model: fmt.Sprintf("the call returns within %v", callDeadline)}}, unclassified...)
 					rep.Extra["aborted"] = "timeout; run stopped"
 					mu.Unlock()
 					break loop
@@ -1024,6 +1060,19 @@ loop:
 	}
 	mu.Lock()
 	closed = true
+	for _, d := range unclassified {
+		rep.AddDiff(d)
+	}
+	for _, d := range classified {
+		rep.AddDiff(d)
+	}
+	for cls, n := range classCount {
+		rep.Stats["diffs_class:"+cls] = n
+		for i := 6; i < n; i++ { // counted, not stored
+			rep.AddDiff(vh.Diff{Component: component, Class: cls, Impl: "(further diffs of this class)"})
+		}
+	}
+	rep.Stats["diffs_unclassified"] = len(unclassified)
 	rep.Stats["calls_total"] = int(calls)
 	rep.Stats["errors_checked_total"] = int(errs)
 	rep.Finish()
